@@ -9,6 +9,7 @@ mod modelfault;
 mod optvar;
 mod orch;
 mod panics;
+mod projgen;
 mod report;
 mod rng;
 mod worker;
@@ -17,9 +18,69 @@ fn main() {
     let args: Vec<String> = std::env::args().collect();
     let code = match args.get(1).map(|s| s.as_str()) {
         Some("worker") => worker::worker_main(&args[2..]),
-        Some("check") => checks::main(&args[2..]),
+        Some("check") => {
+            // a panic of the simulator itself is a harness error (exit 2), never a verdict
+            let a = args[2..].to_vec();
+            match std::panic::catch_unwind(move || checks::main(&a)) {
+                Ok(rc) => rc,
+                Err(_) => {
+                    println!("HARNESS-ERROR: the simulator panicked; this run gives no verdict (exit 2)");
+                    2
+                }
+            }
+        }
         Some("baseline") => checks::baseline::main(&args[2..]),
         Some("selftest") => checks::selftest::main(&args[2..]),
+        Some("gen") => {
+            // debugging aid: print a generated project
+            print!("{}", projgen::generate(args.get(2).and_then(|s| s.parse().ok()).unwrap_or(1)));
+            0
+        }
+        Some("genstat") => {
+            // debugging aid: how many generated projects convert, are closed, are sane, give finite indicators
+            panics::install_hook();
+            let n: u64 = args.get(2).and_then(|s| s.parse().ok()).unwrap_or(100);
+            let (mut ok, mut err, mut pan, mut closed, mut sane, mut fin) = (0, 0, 0, 0, 0, 0);
+            for seed in 0..n {
+                let (text, feat) = projgen::generate_with_features(seed);
+                match panics::contain(|| engines::disk::convert_ctehexml(&text, 1)) {
+                    Ok(Ok(m)) => {
+                        ok += 1;
+                        let v: serde_json::Value = serde_json::from_str(&m.as_json().unwrap()).unwrap();
+                        if closure::closure_violations(&v).is_empty() {
+                            closed += 1;
+                        } else {
+                            println!("seed {} not closed: {:?}", seed, closure::closure_violations(&v).first());
+                        }
+                        match engines::model::sane(&v) {
+                            Ok(()) => sane += 1,
+                            Err(e) => println!("seed {} not sane: {} {:?}", seed, e, feat),
+                        }
+                        match panics::contain(|| m.energy_indicators()) {
+                            Ok(ind) => {
+                                let nf = engines::model::nonfinite_fields(&format!("{:?}", ind));
+                                if nf.is_empty() {
+                                    fin += 1;
+                                } else {
+                                    println!("seed {} non-finite: {:?} {:?}", seed, nf, feat);
+                                }
+                            }
+                            Err(p) => println!("seed {} indicators panic: {:?}", seed, p),
+                        }
+                    }
+                    Ok(Err(e)) => {
+                        err += 1;
+                        println!("seed {} rejected: {} {:?}", seed, format!("{:#}", e).lines().next().unwrap_or(""), feat);
+                    }
+                    Err(p) => {
+                        pan += 1;
+                        println!("seed {} PANIC: {:?}", seed, p);
+                    }
+                }
+            }
+            println!("generated {}: converted {}, rejected {}, panicked {}; closed {}, sane {}, finite indicators {}", n, ok, err, pan, closed, sane, fin);
+            0
+        }
         Some("clone") => {
             // debugging aid: print the unused copy made by clone_subgraph
             let (_, text) = engines::disk::text_of(&args[2]);
